@@ -111,3 +111,71 @@ Print Assumptions C09_generator_static_instance.
 Print Assumptions C09_generator_reads_current_parent.
 Print Assumptions C09_generator_after_update.
 Print Assumptions C09_generator_update_nonvacuous.
+
+From AT Require Import PolyGenSub.
+
+(* PolyhedraGen::with_root(tree, r) for ANY start node r (Pwl/PolyGenSub.v).  ginv_sub = ginv without "r is parent-less"
+   (executable form gsubb); start_rows a r = [] for a parent-less r, else the rows of the edge that enters r
+   (edge_rows of the predicate of r's parent under r's label there).  The coded machine started at r produces, for EVERY
+   Next / skip_subtree script, the stream of the specification forest machine whose single pending item is r's subtree
+   with the closed rows rows0: depth counts from r, every reported row list starts with rows0 and continues with the
+   rows of the edges from r down to the node.  For a parent-less r this is C09_generator_refines_spec
+   (f_new_sub [] dt = f_new dt) *)
+Theorem C09_generator_subtree_refines_spec : forall a r fuel dt rows0 script,
+  ginv_sub a -> dabs fuel a r = Some dt -> start_rows a r = Some rows0 ->
+  pgen_run a (pgen_new r) script = f_run (f_new_sub rows0 dt) script.
+Proof. exact pgen_run_sub_spec. Qed.
+(* the same with the parent edge spelled out *)
+Theorem C09_generator_subtree_parent_edge : forall a r fuel dt c pi pc l rows0 script,
+  ginv_sub a -> dabs fuel a r = Some dt ->
+  aget a r = Some c -> c_parent c = Some pi -> aget a pi = Some pc ->
+  find_label (c_children pc) r = Some l -> edge_rows (ac_aff (c_val pc)) l = Some rows0 ->
+  pgen_run a (pgen_new r) script = f_run (f_new_sub rows0 dt) script.
+Proof. exact pgen_run_sub_parent. Qed.
+(* relation to a traversal that started above r: the specification machine that holds r's subtree at depth d0 with the
+   closed rows pre ++ rows0 (the pending item a traversal from an ancestor creates for r: mk_pending appends the edge
+   rows to the rows pre it reported for r's parent) yields the stream of with_root(r) with d0 added to every depth and
+   pre prepended to every row list: the rows with_root(r) reports for n are the last depth_below_r(n) + 1 groups of
+   the rows the traversal from above reports for n *)
+Theorem C09_generator_subtree_rows : forall a r fuel dt rows0 script d0 pre,
+  ginv_sub a -> dabs fuel a r = Some dt -> start_rows a r = Some rows0 ->
+  f_run {| f_pending := [ {| pd_depth := d0; pd_nrem := 0; pd_rows := pre ++ rows0; pd_tree := dt |} ]; f_last := 0 |} script
+  = map (lift_out d0 pre) (pgen_run a (pgen_new r) script).
+Proof. exact pgen_sub_rows. Qed.
+Theorem C09_gsubb_sound : forall a, gsubb a = true -> ginv_sub a.
+Proof. exact gsubb_sound. Qed.
+Theorem C09_ginv_is_ginv_sub : forall a r, ginv a r -> ginv_sub a.
+Proof. exact ginv_ginv_sub. Qed.
+(* root 0 over leaf 1 and decision 2; 2 over the leaves 3 and 4; with_root(2): 4 is off the left-most chain of 2 *)
+Example C09_generator_subtree_nonvacuous :
+  gsubb pgs_arena = true /\
+  option_map (fun r => rows_eqb r [([1], 0)]) (start_rows pgs_arena 2) = Some true /\
+  map pgs_key (pgen_run pgs_arena (pgen_new 2) [Next; Next; Next; Next]) = [20%nat; 131%nat; 140%nat; 999%nat] /\
+  map (fun o => rows_eqb (out_rows o) [([1], 0)]) (pgen_run pgs_arena (pgen_new 2) [Next; Next; Next; Next])
+    = [true; false; false; false] /\
+  map (fun o => rows_eqb (out_rows o) [([1], 0); ([- (1)], - (1))]) (pgen_run pgs_arena (pgen_new 2) [Next; Next; Next; Next])
+    = [false; true; false; false] /\
+  map (fun o => rows_eqb (out_rows o) [([1], 0); ([1], 1)]) (pgen_run pgs_arena (pgen_new 2) [Next; Next; Next; Next])
+    = [false; false; true; false] /\
+  map pgs_key (pgen_run pgs_arena (pgen_new 2) [Next; Skip; Next]) = [20%nat; 777%nat; 999%nat].
+Proof. exact pgen_run_sub_example. Qed.
+
+Print Assumptions C09_generator_subtree_refines_spec.
+Print Assumptions C09_generator_subtree_parent_edge.
+Print Assumptions C09_generator_subtree_rows.
+Print Assumptions C09_gsubb_sound.
+Print Assumptions C09_ginv_is_ginv_sub.
+Print Assumptions C09_generator_subtree_nonvacuous.
+
+(* what a traversal from above holds for a child: when the specification machine reports a node, the pending items it
+   creates for the children are one level deeper and carry the rows just reported ++ the rows of the edge to the child;
+   so the pending item for r in a traversal from an ancestor is the one of C09_generator_subtree_rows with
+   pre = rows reported for r's parent, rows0 = the rows of the edge into r *)
+Theorem C09_spec_children_rows : forall fs oi fs', f_next fs = FItem oi fs' ->
+  exists p rest i f ch new, f_pending fs = p :: rest /\ pd_tree p = DN i f ch /\ o_index oi = i /\
+    f_pending fs' = new ++ rest /\ f_last fs' = length new /\
+    Forall (fun q => pd_depth q = S (o_depth oi) /\
+                     exists l r0, In (l, pd_tree q) (label_children 0 ch) /\ edge_rows f l = Some r0 /\
+                                  pd_rows q = o_rows oi ++ r0) new.
+Proof. exact f_next_children_rows. Qed.
+Print Assumptions C09_spec_children_rows.
